@@ -35,7 +35,8 @@ HARNESS = ["zz_verif_flexfec_test.go"]
 RULE = ("scripts = TLC-enumerated batch descriptors of Gen_FlexFec (k x n x base x shape pattern x length pattern; sequences of "
         "1-3 batches relative to the previous one) made concrete with seeded header values and payload bytes; each is executed on "
         "FlexEncoder03.EncodeFec (level enc), FecInterceptor via BindLocalStream (level icpt) or four concurrent streams on one "
-        "interceptor under -race (level conc); TLC validates the recorded packets. distinct_nontrivial = distinct recorded "
+        "interceptor under -race (level conc), plus seeded long histories of 12-40 batches with (k, n) changing at random; TLC "
+        "validates the recorded packets. distinct_nontrivial = distinct recorded "
         "traces with at least one repair packet, i.e. at least one XOR recovery performed by TLC.")
 
 LENS = [0, 1, 7, 64]
@@ -152,6 +153,33 @@ def icpt_script(rng, d, nb, big=False, fec=True, level="icpt", nstreams=1, other
             st["batches"].append({"n": d["n"], "pkts": part})
         streams.append(st)
     return {"level": level, "poison": rng.random() < 0.5, "k": d["k"], "n": d["n"], "streams": streams}
+
+
+def long_script(rng, nb, level="enc"):
+    """(T) scale: many successive batches through one encoder with (k, n) changing at random (table reuse / rebuild,
+    running repair counter, scratch reuse); not TLC-generated."""
+    st = stream(rng, 1)
+    seq = rng.choice([0, 65000, rng.randrange(65536)])
+    k, n = rng.choice([3, 5, 16]), rng.choice([1, 2])
+    for _ in range(nb):
+        r = rng.random()
+        if level == "enc":
+            if r < 0.35:
+                pass                                  # same shape: coverage reused
+            elif r < 0.9:
+                k = rng.choice([1, 2, 3, 5, 8, 14, 15, 16, 17, 20])
+                n = rng.choice([0, 1, 2, 3, max(k - 1, 0), k, k + 1, 110])
+            else:
+                k = rng.choice([45, 46, 47, 108, 109, 110])
+                n = rng.choice([1, 2, 3, k - 1, k, 110])
+        if rng.random() < 0.1:
+            seq = (seq + rng.randrange(1, 40000)) % 65536      # the next batch need not continue the previous one
+        d = {"k": k, "n": n, "base": seq, "sh": [rng.randrange(NUM_SHAPES) for _ in range(k)],
+             "ln": [rng.randrange(len(LENS)) for _ in range(k)]}
+        st["batches"].append({"n": n, "pkts": concrete_batch(rng, d, LENS)})
+        seq = (seq + k) % 65536
+    return {"level": level, "poison": rng.random() < 0.5, "k": k if level != "enc" else 0, "n": n if level != "enc" else 0,
+            "streams": [st]}
 
 
 def wire_script(rng):
@@ -274,6 +302,10 @@ def run(ctx):
     for i in range(n_big):
         b = rng.choice(small_k)
         scripts.append(enc_script(rng, b, big=True) if i % 2 == 0 else icpt_script(rng, b[0], 2, big=True))
+    # (T) scale: long seeded histories through one encoder / one bound stream
+    n_long, len_long = (6, 12) if ctx.quick else (60, 40)
+    for i in range(n_long):
+        scripts.append(long_script(rng, len_long, "enc" if i % 3 else "icpt"))
     rng.shuffle(scripts)
     chunk = 200 if ctx.quick else 150
     for i in range(0, len(scripts), chunk):
